@@ -138,9 +138,14 @@ Expect(ev) ==
             IF (e = Zero /\ add = {}) \/ (IsAlive(w, e) /\ add \subseteq CompsOf(w, e))
             THEN R(TRUE, w, {}) ELSE [def |-> FALSE, pre |-> TRUE, w2 |-> w, foot |-> {}]
       [] ev.op = "Shrink" ->
-            IF Locked(w) THEN [def |-> FALSE, pre |-> TRUE, w2 |-> w, foot |-> {}] ELSE R(TRUE, w, {})
+            \* (traced programs: a rejected call - e.g. two time limits - is not regulated by the properties)
+            IF Locked(w) \/ (ev.mode = "trace" /\ ev.panic) THEN [def |-> FALSE, pre |-> TRUE, w2 |-> w, foot |-> {}] ELSE R(TRUE, w, {})
       [] ev.op = "Reset" ->
             IF PreReset(w) THEN R(TRUE, DoReset(w), {}) ELSE R(FALSE, w, {})
+      [] ev.op = "TLock" ->   \* traced programs: the world lock taken / released by a query or a callback phase
+            R(TRUE, [w EXCEPT !.cb = @ + 1], {})
+      [] ev.op = "TUnlock" ->
+            IF w.cb > 0 THEN R(TRUE, [w EXCEPT !.cb = @ - 1], {}) ELSE [def |-> FALSE, pre |-> TRUE, w2 |-> w, foot |-> {}]
       [] ev.op = "Load" ->    \* the world continues as the one its dump was loaded into
             IF PreLoad(w) THEN R(TRUE, DoLoad(w), Alive(w)) ELSE [def |-> FALSE, pre |-> TRUE, w2 |-> w, foot |-> {}]
       [] OTHER -> [def |-> FALSE, pre |-> TRUE, w2 |-> w, foot |-> {}]
@@ -487,6 +492,15 @@ TNext ==
                 /\ viol' = Append(viol, V("ANY.world-unreadable", <<ev.where, ev.msg>>))
                 /\ skip' = TRUE
                 /\ UNCHANGED <<w, seqno, rg>>
+         \* traces recorded from arbitrary programs through the hooks of the library (build tag verif):
+         [] ev.k = "relset" /\ ~skip ->      \* relation components registered so far
+                /\ w' = [w EXCEPT !.rel = SetOf(ev.rel)] /\ UNCHANGED <<skip, viol, seqno, rg>>
+         [] ev.k = "abandon" ->               \* the tracer stopped following this world
+                /\ skip' = TRUE /\ UNCHANGED <<w, viol, seqno, rg>>
+         [] ev.k = "adopt" /\ ~skip ->        \* a state the history does not determine (a dump loaded into this world)
+                /\ w' = [w EXCEPT !.ent = LoggedEnt(ev.st), !.issued = SetOf(ev.st.alive) \cup SetOf(ev.st.dead),
+                                  !.open = EmptyFn, !.cb = IF ev.st.locked THEN 1 ELSE 0]
+                /\ UNCHANGED <<skip, viol, seqno, rg>>
          [] ev.k = "reg" ->
                 LET r == RegStep(ev) IN
                 /\ viol' = viol \o SetToSeq(r.vs)
